@@ -205,3 +205,730 @@ Proof.
   - destruct (turn s); auto. destruct (get (objs s) r); auto. destruct (o_cb r0); auto.
     destruct (o_completed r0); split; simpl; auto; intros; rewrite length_upd; auto.
 Qed.
+
+(* ------------------------------------------------------------------ per-request invariant *)
+Definition mid_of (t : turnst) (r : nat) : option bool :=
+  match t with TMid r' c _ => if Nat.eqb r' r then Some c else None | TIdle => None end.
+
+Definition objinv (t : turnst) (r : nat) (intab : bool) (o : robj) : Prop :=
+  (match mid_of t r with
+   | Some c => o_completed o = true /\ o_calls o = O /\ c = o_cb o /\ o_dropped o = false
+   | None => o_calls o = if o_completed o && o_cb o && negb (o_dropped o) then 1%nat else O
+   end)
+  /\ (o_dropped o = true -> o_completed o = true /\ o_cb o = true /\ o_outcome o = Some KShutdown)
+  /\ (intab = true -> o_completed o = false \/ mid_of t r <> None)
+  /\ (o_completed o = false -> intab = true)
+  /\ (o_completed o = true <-> o_outcome o <> None).
+
+Definition ObjInv (s : st) : Prop :=
+  forall r o, get (objs s) r = Some o -> objinv (turn s) r (mem r (table s)) o.
+
+Definition PhaseInv (s : st) : Prop :=
+  ph s = PCancelled -> forall r, In r (table s) -> is_completed (objs s) r = true.
+
+(* a change that leaves the fields of the invariant alone *)
+Lemma objinv_ext : forall t r b o o',
+  o_completed o' = o_completed o -> o_outcome o' = o_outcome o -> o_cb o' = o_cb o ->
+  o_calls o' = o_calls o -> o_dropped o' = o_dropped o -> objinv t r b o -> objinv t r b o'.
+Proof. unfold objinv. intros t r b o o' -> -> -> -> ->. auto. Qed.
+
+Lemma objinv_set_timer : forall t r b o x, objinv t r b o -> objinv t r b (set_timer x o).
+Proof. intros. eapply objinv_ext; eauto. Qed.
+Lemma objinv_stop_timer : forall t r b o, objinv t r b o -> objinv t r b (stop_timer o).
+Proof. intros. unfold stop_timer. destruct (o_timer o); auto using objinv_set_timer. Qed.
+Lemma objinv_set_cancelreq : forall t r b o, objinv t r b o -> objinv t r b (set_cancelreq o).
+Proof. intros. eapply objinv_ext; eauto. Qed.
+
+Lemma mid_of_idle : forall r, mid_of TIdle r = None. Proof. reflexivity. Qed.
+
+Ltac bools := repeat match goal with
+  | b : bool |- _ => destruct b
+  end.
+
+Lemma objinv_then : forall r b o, o_cb o = false -> objinv TIdle r b o ->
+  objinv TIdle r b (if o_completed o then inc_calls (set_cb o) else set_cb o).
+Proof.
+  unfold objinv. intros r b o Hcb H. simpl in *.
+  destruct o as [ost ocomp oout ocb ocalls ocr otm odr]; simpl in *. subst ocb.
+  destruct ocomp, odr; simpl in *; intuition (try congruence; try lia).
+Qed.
+
+Lemma objinv_complete : forall r b o k k0, o_completed o = false -> b = true -> objinv TIdle r b o ->
+  objinv (TMid r (o_cb o) k0) r b (set_completed k o).
+Proof.
+  unfold objinv. intros r b o k k0 Hc Hb H. simpl in *. rewrite Nat.eqb_refl.
+  destruct o as [ost ocomp oout ocb ocalls ocr otm odr]; simpl in *. subst ocomp.
+  destruct ocb, odr; simpl in *; intuition (try congruence; try lia).
+Qed.
+
+Lemma objinv_other_turn : forall t t' r b o, mid_of t r = None -> mid_of t' r = None -> objinv t r b o -> objinv t' r b o.
+Proof. unfold objinv. intros t t' r b o -> ->. auto. Qed.
+
+Lemma objinv_finish : forall r c k o, objinv (TMid r c k) r true o \/ objinv (TMid r c k) r false o ->
+  objinv TIdle r false (if c then inc_calls o else o).
+Proof.
+  unfold objinv. intros r c k o H. simpl in *. rewrite Nat.eqb_refl in H.
+  destruct o as [ost ocomp oout ocb ocalls ocr otm odr]; simpl in *.
+  destruct H as [H|H]; destruct c, ocomp, ocb, odr; simpl in *; intuition (try congruence; try lia).
+Qed.
+
+Lemma objinv_new : forall r st_ ar, objinv TIdle r true (new_obj st_ ar).
+Proof. unfold objinv, new_obj. intros. simpl. intuition (try congruence). Qed.
+
+Lemma objinv_cancel_won : forall t r o, o_completed o = false -> objinv t r true o -> objinv t r false (shutdown_complete o).
+Proof.
+  unfold objinv. intros t r o Hc H.
+  destruct o as [ost ocomp oout ocb ocalls ocr otm odr]; simpl in *. subst ocomp.
+  destruct (mid_of t r); destruct ocb, odr; simpl in *; intuition (try congruence; try lia).
+Qed.
+
+Lemma objinv_reset : forall t r b o, o_completed o = true -> objinv t r b o -> objinv t r false o.
+Proof. unfold objinv. intros t r b o Hc H. intuition (try congruence). Qed.
+
+Lemma mem_app_single : forall r t x, mem r (t ++ [x]) = mem r t || Nat.eqb x r.
+Proof. induction t; simpl; intros; [rewrite orb_false_r; auto|]. rewrite IHt, orb_assoc. auto. Qed.
+
+Lemma mem_remove1_other : forall r r0 t, r0 <> r -> mem r0 (remove1 r t) = mem r0 t.
+Proof.
+  intros. destruct (mem r0 t) eqn:E.
+  - apply mem_In. apply remove1_In. split; auto. apply mem_In; auto.
+  - apply mem_false. intros Hi. apply remove1_In in Hi. apply mem_false in E. tauto.
+Qed.
+
+Lemma mem_remove1_same : forall r t, mem r (remove1 r t) = false.
+Proof. intros. apply mem_false. intros Hi. apply remove1_In in Hi. tauto. Qed.
+
+Lemma mem_filter : forall (f : nat -> bool) r t, mem r (filter f t) = mem r t && f r.
+Proof.
+  intros. destruct (mem r (filter f t)) eqn:E.
+  - apply mem_In in E. apply filter_In in E. destruct E as [E1 E2]. apply mem_In in E1. rewrite E1, E2. auto.
+  - apply mem_false in E. destruct (mem r t) eqn:E1; auto. destruct (f r) eqn:E2; auto.
+    exfalso. apply E. apply filter_In. split; auto. apply mem_In; auto.
+Qed.
+
+(* objs / table / turn of a deregistration *)
+Lemma deregister_shape : forall s r,
+  (mem r (table s) = false /\ deregister s r = s) \/
+  (mem r (table s) = true /\ objs (deregister s r) = upd (objs s) r stop_timer /\
+   table (deregister s r) = remove1 r (table s) /\ turn (deregister s r) = turn s /\ ph (deregister s r) = ph s /\
+   inflight (deregister s r) = inflight s - 1 /\
+   blocking (deregister s r) = (if is_stash (objs s) r then blocking s - 1 else blocking s) /\
+   tainted (deregister s r) = tainted s /\ maxif (deregister s r) = maxif s).
+Proof.
+  intros. unfold deregister. destruct (mem r (table s)); simpl; [right|left; auto].
+  destruct (is_stash (objs s) r); [destruct (blocking s - 1 =? 0)|]; simpl; intuition.
+Qed.
+
+Lemma objinv_step : forall s o, WF s -> ObjInv s -> PhaseInv s -> ObjInv (step s o).
+Proof.
+  intros s o [Hn Hb] HI HP. unfold ObjInv in *.
+  assert (SAME : forall t, turn s = t -> forall r o, get (objs s) r = Some o -> objinv t r (mem r (table s)) o)
+    by (intros t <-; exact HI).
+  destruct o; simpl.
+  - (* OArrive *) destruct (ph s); auto.
+  - (* OReply *) destruct (ph s); auto.
+  - (* OTimerFire *)
+    destruct (get (objs s) r) eqn:G; auto.
+    destruct (o_timer r0); auto; simpl; intros r1 o1; rewrite get_upd;
+      destruct (Nat.eqb_spec r1 r); auto; subst; rewrite G; simpl; intros E; inversion E; subst;
+      apply objinv_set_timer; auto.
+  - (* OCancel *)
+    destruct (get (objs s) r) eqn:G; auto. destruct (o_completed r0 || o_cancelreq r0); auto.
+    simpl; intros r1 o1; rewrite get_upd; destruct (Nat.eqb_spec r1 r); auto; subst; rewrite G; simpl;
+      intros E; inversion E; subst. apply objinv_set_cancelreq; auto.
+  - (* OStop *) destruct (ph s); auto.
+  - (* OCancelInFlight *)
+    simpl. intros r o. unfold cancel_objs, cancel_keep. rewrite get_mapi, mem_filter.
+    destruct (get (objs s) r) as [o0|] eqn:G; simpl; [|discriminate]. intros E; inversion E; subst; clear E.
+    specialize (HI _ _ G). unfold is_completed. rewrite G.
+    destruct (mem r (table s)) eqn:M; simpl; auto.
+    unfold cancel_one. destruct (o_completed o0) eqn:C; auto.
+    apply objinv_cancel_won; auto.
+  - (* OReset *)
+    destruct (ph s) eqn:P; auto. simpl. intros r o G. specialize (HI _ _ G).
+    apply objinv_reset with (b := mem r (table s)); auto.
+    destruct (o_completed o) eqn:C; auto. exfalso.
+    destruct HI as (_ & _ & _ & H4 & _). specialize (H4 C). apply mem_In in H4.
+    specialize (HP P _ H4). unfold is_completed in HP. rewrite G in HP. congruence.
+  - (* ORestart *) destruct (ph s); auto.
+  - (* ODispatch *)
+    destruct (turn s) eqn:T; [|apply SAME; auto]. destruct (mbox s) as [|m rest]; [apply SAME; auto|]. destruct m.
+    + destruct (0 <? blocking s); simpl; apply SAME; auto.
+    + destruct (mem r (table s)) eqn:M; [|simpl; rewrite T; apply SAME; auto].
+      destruct (get (objs s) r) as [o0|] eqn:G; [|simpl; rewrite T; apply SAME; auto].
+      destruct (o_completed o0) eqn:C; [simpl; rewrite T; apply SAME; auto|].
+      simpl. intros r1 o1. rewrite get_upd. destruct (Nat.eqb_spec r1 r).
+      * subst. rewrite G. simpl. intros E; inversion E; subst. rewrite M.
+        specialize (HI _ _ G). try rewrite T in HI; try rewrite M in HI.
+        apply (objinv_complete r true o0 k k); auto.
+      * intros G1. specialize (HI _ _ G1). try rewrite T in HI.
+        eapply objinv_other_turn; [| |exact HI]; simpl; auto.
+        destruct (Nat.eqb_spec r r1); auto. congruence.
+  - (* OFinish *)
+    destruct (turn s) as [|r c k] eqn:T; [apply SAME; auto|].
+    assert (D := deregister_shape (with_turn s TIdle) r). simpl in D.
+    set (s1 := deregister (with_turn s TIdle) r) in *.
+    assert (K : forall r1 o1, get (objs s1) r1 = Some o1 ->
+              if Nat.eqb r1 r then (objinv (TMid r c k) r true o1 \/ objinv (TMid r c k) r false o1) /\ mem r1 (table s1) = false /\ turn s1 = TIdle
+              else objinv TIdle r1 (mem r1 (table s1)) o1 /\ turn s1 = TIdle).
+    { intros r1 o1 G1. destruct D as [[M E]|(M & Eo & Et & Etu & _)].
+      - rewrite E in *. simpl in *. specialize (HI _ _ G1). try rewrite T in HI.
+        destruct (Nat.eqb_spec r1 r).
+        + subst. rewrite M. rewrite M in HI. auto.
+        + split; auto. eapply objinv_other_turn; [| |exact HI]; simpl; auto.
+          destruct (Nat.eqb_spec r r1); auto. congruence.
+      - rewrite Eo in G1. rewrite get_upd in G1. rewrite Et, Etu.
+        destruct (Nat.eqb_spec r1 r).
+        + subst. destruct (get (objs s) r) as [o0|] eqn:G; simpl in G1; [|discriminate]. inversion G1; subst.
+          specialize (HI _ _ G). try rewrite T in HI; try rewrite M in HI. split; [left; apply objinv_stop_timer; auto|].
+          split; auto. apply mem_remove1_same.
+        + specialize (HI _ _ G1). try rewrite T in HI. rewrite mem_remove1_other; auto. split; auto.
+          eapply objinv_other_turn; [| |exact HI]; simpl; auto.
+          destruct (Nat.eqb_spec r r1); auto. congruence. }
+    destruct c.
+    + simpl. intros r1 o1. rewrite get_upd. destruct (Nat.eqb_spec r1 r).
+      * subst. destruct (get (objs s1) r) as [o0|] eqn:G; simpl; [|discriminate]. intros E; inversion E; subst.
+        specialize (K _ _ G). rewrite Nat.eqb_refl in K. destruct K as (K1 & K2 & K3). rewrite K2, K3.
+        apply (objinv_finish r true k o0). auto.
+      * intros G. specialize (K _ _ G). destruct (Nat.eqb_spec r1 r); [congruence|]. destruct K as [K1 K2]. rewrite K2. auto.
+    + intros r1 o1 G. specialize (K _ _ G). destruct (Nat.eqb_spec r1 r).
+      * subst. destruct K as (K1 & K2 & K3). rewrite K2, K3. apply (objinv_finish r false k o1). auto.
+      * destruct K as [K1 K2]. rewrite K2. auto.
+  - (* OCtl *)
+    destruct (turn s) eqn:T; [|apply SAME; auto]. simpl. apply SAME; auto.
+  - (* ORequest *)
+    destruct (turn s) eqn:T; [|apply SAME; auto]. destruct (ph s); try (apply SAME; auto). unfold register.
+    destruct ((0 <? maxif s) && (maxif s <=? inflight s)); [apply SAME; auto|]. simpl.
+    intros r o G. rewrite T. rewrite mem_app_single. apply get_app_inv in G. destruct G as [[Hl G]|[-> ->]].
+    + specialize (HI _ _ G). try rewrite T in HI. destruct (Nat.eqb_spec (length (objs s)) r); [lia|]. rewrite orb_false_r. auto.
+    + rewrite Nat.eqb_refl, orb_true_r. apply objinv_new.
+  - (* OThen *)
+    destruct (turn s) eqn:T; [|apply SAME; auto]. destruct (get (objs s) r) as [o0|] eqn:G; [|apply SAME; auto].
+    destruct (o_cb o0) eqn:Cb; [apply SAME; auto|].
+    assert (K : forall r1 o1, get (upd (objs s) r (fun x => if o_completed x then inc_calls (set_cb x) else set_cb x)) r1 = Some o1 ->
+                objinv TIdle r1 (mem r1 (table s)) o1).
+    { intros r1 o1. rewrite get_upd. destruct (Nat.eqb_spec r1 r).
+      - subst. rewrite G. simpl. intros E; inversion E; subst. specialize (HI _ _ G). try rewrite T in HI.
+        apply objinv_then; auto.
+      - intros G1. specialize (HI _ _ G1). try rewrite T in HI. auto. }
+    destruct (o_completed o0) eqn:C; simpl; try rewrite T; intros r1 o1 G1; apply K; rewrite get_upd in G1; rewrite get_upd;
+      (destruct (Nat.eqb_spec r1 r); [subst; rewrite G in *; simpl in *; rewrite C; exact G1 | exact G1]).
+Qed.
+
+(* ------------------------------------------------------------------ completion is monotone, first result wins *)
+Lemma step_completed_mono : forall s o r ob, get (objs s) r = Some ob -> o_completed ob = true ->
+  exists ob', get (objs (step s o)) r = Some ob' /\ o_completed ob' = true /\ o_outcome ob' = o_outcome ob.
+Proof.
+  intros s o r ob G C.
+  assert (KEEP : exists ob', get (objs s) r = Some ob' /\ o_completed ob' = true /\ o_outcome ob' = o_outcome ob) by eauto.
+  assert (UPD : forall r0 f, (forall x, o_completed x = true -> o_completed (f x) = true /\ o_outcome (f x) = o_outcome x) ->
+            exists ob', get (upd (objs s) r0 f) r = Some ob' /\ o_completed ob' = true /\ o_outcome ob' = o_outcome ob).
+  { intros r0 f Hf. rewrite get_upd. destruct (Nat.eqb r r0); eauto. rewrite G. simpl. destruct (Hf _ C). eauto. }
+  destruct o; simpl; auto.
+  - destruct (ph s); auto.
+  - destruct (ph s); auto.
+  - destruct (get (objs s) r0); auto. destruct (o_timer r1); auto; simpl; apply UPD; auto.
+  - destruct (get (objs s) r0); auto. destruct (o_completed r1 || o_cancelreq r1); auto. simpl. apply UPD; auto.
+  - destruct (ph s); auto.
+  - unfold cancel_objs. rewrite get_mapi, G. simpl. destruct (mem r (table s)); eauto.
+    unfold cancel_one. rewrite C. eauto.
+  - destruct (ph s); auto.
+  - destruct (ph s); auto.
+  - destruct (turn s); auto. destruct (mbox s) as [|m rest]; auto. destruct m.
+    + destruct (0 <? blocking s); auto.
+    + destruct (mem r0 (table s)); auto. destruct (get (objs s) r0) as [o0|] eqn:G0; auto.
+      destruct (o_completed o0) eqn:C0; auto. simpl. rewrite get_upd. destruct (Nat.eqb_spec r r0); eauto.
+      subst. congruence.
+  - destruct (turn s) as [|r0 c k]; auto.
+    assert (D : exists ob', get (objs (deregister (with_turn s TIdle) r0)) r = Some ob' /\ o_completed ob' = true /\ o_outcome ob' = o_outcome ob).
+    { destruct (deregister_shape (with_turn s TIdle) r0) as [[_ E]|(_ & E & _)]; rewrite E; simpl; auto.
+      apply UPD. intros x Hx. unfold stop_timer. destruct (o_timer x); auto. }
+    destruct c; auto. simpl. destruct D as (ob' & G' & C' & O'). rewrite get_upd. destruct (Nat.eqb r r0); eauto.
+    rewrite G'. simpl. eauto.
+  - destruct (turn s); auto.
+  - destruct (turn s); auto. destruct (ph s); auto. unfold register.
+    destruct ((0 <? maxif s) && (maxif s <=? inflight s)); auto. simpl. rewrite get_app_old; eauto using get_lt.
+  - destruct (turn s); auto. destruct (get (objs s) r0) as [o0|]; auto. destruct (o_cb o0); auto.
+    destruct (o_completed o0); simpl; apply UPD; auto.
+Qed.
+
+Lemma step_table_sub : forall s o r, In r (table (step s o)) -> In r (table s) \/ (ph s = PRun /\ ph (step s o) = PRun).
+Proof.
+  intros s o r. destruct o; simpl; auto.
+  - destruct (ph s); auto.
+  - destruct (ph s); auto.
+  - destruct (get (objs s) r0); auto. destruct (o_timer r1); auto.
+  - destruct (get (objs s) r0); auto. destruct (o_completed r1 || o_cancelreq r1); auto.
+  - destruct (ph s); auto.
+  - unfold cancel_keep. intros H. apply filter_In in H. tauto.
+  - destruct (ph s); simpl; intuition.
+  - destruct (ph s); auto.
+  - destruct (turn s); auto. destruct (mbox s) as [|m rest]; auto. destruct m.
+    + destruct (0 <? blocking s); auto.
+    + destruct (mem r0 (table s)); auto. destruct (get (objs s) r0); auto. destruct (o_completed r1); auto.
+  - destruct (turn s) as [|r0 c k]; auto.
+    assert (D : In r (table (deregister (with_turn s TIdle) r0)) -> In r (table s)).
+    { destruct (deregister_shape (with_turn s TIdle) r0) as [[_ E]|(_ & _ & E & _)]; rewrite E; simpl; auto.
+      intros H. apply remove1_In in H. tauto. }
+    destruct c; simpl; auto.
+  - destruct (turn s); auto.
+  - destruct (turn s); auto. destruct (ph s) eqn:P; auto. unfold register.
+    destruct ((0 <? maxif s) && (maxif s <=? inflight s)); simpl; auto.
+  - destruct (turn s); auto. destruct (get (objs s) r0); auto. destruct (o_cb r1); auto. destruct (o_completed r1); auto.
+Qed.
+
+Lemma phase_step : forall s o, PhaseInv s -> PhaseInv (step s o).
+Proof.
+  intros s o HP P r Hi.
+  destruct (ph s) eqn:P0.
+  - (* PRun: no op reaches PCancelled in one step *)
+    exfalso. destruct o; simpl in P; rewrite ?P0 in P; simpl in P; try congruence.
+    + destruct (get (objs s) r0); [destruct (o_timer r1)|]; simpl in P; congruence.
+    + destruct (get (objs s) r0); [destruct (o_completed r1 || o_cancelreq r1)|]; simpl in P; congruence.
+    + destruct (turn s); [destruct (mbox s) as [|m rest]; [|destruct m; [destruct (0 <? blocking s)|
+        destruct (mem r0 (table s)); [destruct (get (objs s) r0); [destruct (o_completed r1)|]|]]]|]; simpl in P; congruence.
+    + destruct (turn s) as [|r0 c k]; [congruence|].
+      destruct (deregister_shape (with_turn s TIdle) r0) as [[_ E]|(_ & _ & _ & _ & E & _)]; destruct c; simpl in P; rewrite E in P; simpl in P; congruence.
+    + destruct (turn s); simpl in P; congruence.
+    + destruct (turn s); [unfold register in P; destruct ((0 <? maxif s) && (maxif s <=? inflight s))|]; simpl in P; congruence.
+    + destruct (turn s); [destruct (get (objs s) r0); [destruct (o_cb r1); [|destruct (o_completed r1)]|]|]; simpl in P; congruence.
+  - (* PStopping: only OCancelInFlight moves to PCancelled *)
+    destruct o; simpl in P, Hi |- *; rewrite ?P0 in *; simpl in *; try congruence.
+    + destruct (get (objs s) r0); [destruct (o_timer r1)|]; simpl in P; congruence.
+    + destruct (get (objs s) r0); [destruct (o_completed r1 || o_cancelreq r1)|]; simpl in P; congruence.
+    + unfold cancel_keep in Hi. apply filter_In in Hi. destruct Hi as [_ Hc].
+      unfold is_completed, cancel_objs in *. rewrite get_mapi. destruct (get (objs s) r) as [o0|]; simpl in *; [|congruence].
+      unfold cancel_one. destruct (mem r (table s)); auto. rewrite Hc. auto.
+    + destruct (turn s); [destruct (mbox s) as [|m rest]; [|destruct m; [destruct (0 <? blocking s)|
+        destruct (mem r0 (table s)); [destruct (get (objs s) r0); [destruct (o_completed r1)|]|]]]|]; simpl in P; congruence.
+    + destruct (turn s) as [|r0 c k]; [congruence|].
+      destruct (deregister_shape (with_turn s TIdle) r0) as [[_ E]|(_ & _ & _ & _ & E & _)]; destruct c; simpl in P; rewrite E in P; simpl in P; congruence.
+    + destruct (turn s); simpl in P; congruence.
+    + destruct (turn s); simpl in P; congruence.
+    + destruct (turn s); [destruct (get (objs s) r0); [destruct (o_cb r1); [|destruct (o_completed r1)]|]|]; simpl in P; congruence.
+  - (* PCancelled *)
+    destruct (step_table_sub s o r Hi) as [Hi'|[Hc _]]; [|congruence].
+    specialize (HP P0 r Hi'). unfold is_completed in *. destruct (get (objs s) r) as [ob|] eqn:G; [|congruence].
+    destruct (step_completed_mono s o r ob G HP) as (ob' & G' & C' & _). rewrite G'. auto.
+  - (* PStopped: no op reaches PCancelled *)
+    exfalso. destruct o; simpl in P; rewrite ?P0 in P; simpl in P; try congruence.
+    + destruct (get (objs s) r0); [destruct (o_timer r1)|]; simpl in P; congruence.
+    + destruct (get (objs s) r0); [destruct (o_completed r1 || o_cancelreq r1)|]; simpl in P; congruence.
+    + destruct (turn s); [destruct (mbox s) as [|m rest]; [|destruct m; [destruct (0 <? blocking s)|
+        destruct (mem r0 (table s)); [destruct (get (objs s) r0); [destruct (o_completed r1)|]|]]]|]; simpl in P; congruence.
+    + destruct (turn s) as [|r0 c k]; [congruence|].
+      destruct (deregister_shape (with_turn s TIdle) r0) as [[_ E]|(_ & _ & _ & _ & E & _)]; destruct c; simpl in P; rewrite E in P; simpl in P; congruence.
+    + destruct (turn s); simpl in P; congruence.
+    + destruct (turn s); simpl in P; congruence.
+    + destruct (turn s); [destruct (get (objs s) r0); [destruct (o_cb r1); [|destruct (o_completed r1)]|]|]; simpl in P; congruence.
+Qed.
+
+(* ------------------------------------------------------------------ counters *)
+Definition CntInv (s : st) : Prop :=
+  tainted s = false ->
+  inflight s = Z.of_nat (length (table s)) /\ blocking s = Z.of_nat (nstash (objs s) (table s)).
+
+Lemma filter_none : forall (f : nat -> bool) l, (forall x, In x l -> f x = false) -> filter f l = [].
+Proof. induction l as [|y t IH]; simpl; intros H; auto. rewrite H; auto. Qed.
+
+Lemma cnt_deregister : forall s r, WF s -> CntInv s -> CntInv (deregister s r).
+Proof.
+  intros s r [Hn Hb] HC. destruct (deregister_shape s r) as [[_ E]|(M & Eo & Et & _ & _ & Ei & Ebl & Eta & _)]; [rewrite E; auto|].
+  intros Ht. rewrite Eta in Ht. destruct (HC Ht) as [H1 H2]. apply mem_In in M.
+  rewrite Eo, Et, Ei, Ebl. rewrite nstash_upd by auto with c16.
+  pose proof (remove1_length r (table s) Hn M). pose proof (nstash_remove1 (objs s) r (table s) Hn M).
+  split; [lia|]. destruct (is_stash (objs s) r); lia.
+Qed.
+
+Lemma cnt_step : forall s o, WF s -> ObjInv s -> CntInv s -> CntInv (step s o).
+Proof.
+  intros s o HW HI HC. pose proof HW as [Hn Hb].
+  assert (UPD : forall r f s', (forall x, o_stash (f x) = o_stash x) -> tainted s' = tainted s -> table s' = table s ->
+            inflight s' = inflight s -> blocking s' = blocking s -> objs s' = upd (objs s) r f -> CntInv s').
+  { intros r f s' Hf E1 E2 E3 E4 E5 Ht. rewrite E1 in Ht. destruct (HC Ht). rewrite E2, E3, E4, E5, nstash_upd; auto. }
+  destruct o; simpl; auto.
+  - destruct (ph s); auto.
+  - destruct (ph s); auto.
+  - destruct (get (objs s) r); auto. destruct (o_timer r0); auto; eapply UPD; simpl; eauto; auto with c16.
+  - destruct (get (objs s) r); auto. destruct (o_completed r0 || o_cancelreq r0); auto. eapply UPD; simpl; eauto; auto with c16.
+  - destruct (ph s); auto.
+  - (* OCancelInFlight *)
+    intros Ht. simpl in *. apply orb_false_iff in Ht. destruct Ht as [Ht1 Ht2].
+    assert (K : cancel_keep (objs s) (table s) = []).
+    { unfold cancel_keep. apply filter_none. intros x Hx. unfold is_completed.
+      destruct (get (objs s) x) as [ox|] eqn:G; auto. destruct (o_completed ox) eqn:C; auto. exfalso.
+      destruct (HI _ _ G) as (H1 & _ & H3 & _). apply mem_In in Hx. specialize (H3 Hx). destruct H3 as [H3|H3]; [congruence|].
+      unfold turn_in_table in Ht2. unfold mid_of in H3. destruct (turn s) as [|r' c' k']; [congruence|].
+      destruct (Nat.eqb_spec r' x); [subst; congruence|congruence]. }
+    rewrite K. simpl. auto.
+  - destruct (ph s); auto. intros _. simpl. auto.
+  - destruct (ph s); auto.
+  - destruct (turn s); auto. destruct (mbox s) as [|m rest]; auto. destruct m.
+    + destruct (0 <? blocking s); auto.
+    + destruct (mem r (table s)); auto. destruct (get (objs s) r); auto. destruct (o_completed r0); auto.
+      eapply UPD; simpl; eauto; auto with c16.
+  - destruct (turn s) as [|r c k]; auto.
+    assert (D : CntInv (deregister (with_turn s TIdle) r)) by (apply cnt_deregister; auto).
+    destruct c; auto. intros Ht. simpl in *. destruct (D Ht). rewrite nstash_upd; auto with c16.
+  - destruct (turn s); auto.
+  - destruct (turn s); auto. destruct (ph s); auto. unfold register.
+    destruct ((0 <? maxif s) && (maxif s <=? inflight s)); auto. intros Ht. simpl in *. destruct (HC Ht) as [H1 H2].
+    rewrite app_length, nstash_app, nstash_app_objs by auto. simpl.
+    unfold is_stash. rewrite get_app_new. simpl. split; [lia|]. destruct stash; lia.
+  - destruct (turn s); auto. destruct (get (objs s) r); auto. destruct (o_cb r0); auto.
+    destruct (o_completed r0); eapply UPD; simpl; eauto; auto with c16.
+Qed.
+
+(* the admission check: the counter itself never exceeds the limit (whatever the taint) *)
+Definition LimInv (s : st) : Prop := 0 < maxif s -> inflight s <= maxif s.
+
+Lemma maxif_step : forall s o, maxif (step s o) = maxif s.
+Proof.
+  intros s o. destruct o; simpl; auto.
+  - destruct (ph s); auto.
+  - destruct (ph s); auto.
+  - destruct (get (objs s) r); auto. destruct (o_timer r0); auto.
+  - destruct (get (objs s) r); auto. destruct (o_completed r0 || o_cancelreq r0); auto.
+  - destruct (ph s); auto.
+  - destruct (ph s); auto.
+  - destruct (ph s); auto.
+  - destruct (turn s); auto. destruct (mbox s) as [|m rest]; auto. destruct m.
+    + destruct (0 <? blocking s); auto.
+    + destruct (mem r (table s)); auto. destruct (get (objs s) r); auto. destruct (o_completed r0); auto.
+  - destruct (turn s) as [|r c k]; auto.
+    destruct (deregister_shape (with_turn s TIdle) r) as [[_ E]|(_ & _ & _ & _ & _ & _ & _ & _ & E)]; destruct c; simpl; rewrite E; auto.
+  - destruct (turn s); auto.
+  - destruct (turn s); auto. destruct (ph s); auto. unfold register.
+    destruct ((0 <? maxif s) && (maxif s <=? inflight s)); auto.
+  - destruct (turn s); auto. destruct (get (objs s) r); auto. destruct (o_cb r0); auto. destruct (o_completed r0); auto.
+Qed.
+
+Lemma lim_step : forall s o, LimInv s -> LimInv (step s o).
+Proof.
+  intros s o HL. unfold LimInv. rewrite maxif_step. intros Hm. specialize (HL Hm).
+  destruct o; simpl; auto; try lia.
+  - destruct (ph s); auto.
+  - destruct (ph s); auto.
+  - destruct (get (objs s) r); auto. destruct (o_timer r0); auto.
+  - destruct (get (objs s) r); auto. destruct (o_completed r0 || o_cancelreq r0); auto.
+  - destruct (ph s); auto.
+  - destruct (ph s); simpl; auto; lia.
+  - destruct (ph s); auto.
+  - destruct (turn s); auto. destruct (mbox s) as [|m rest]; auto. destruct m.
+    + destruct (0 <? blocking s); auto.
+    + destruct (mem r (table s)); auto. destruct (get (objs s) r); auto. destruct (o_completed r0); auto.
+  - destruct (turn s) as [|r c k]; auto.
+    destruct (deregister_shape (with_turn s TIdle) r) as [[_ E]|(_ & _ & _ & _ & _ & E & _)]; destruct c; simpl; rewrite E; simpl; lia.
+  - destruct (turn s); auto.
+  - destruct (turn s); auto. destruct (ph s); auto. unfold register.
+    destruct ((0 <? maxif s) && (maxif s <=? inflight s)) eqn:E; auto. simpl.
+    apply andb_false_iff in E. destruct E as [E|E]; [apply Z.ltb_ge in E|apply Z.leb_gt in E]; lia.
+  - destruct (turn s); auto. destruct (get (objs s) r); auto. destruct (o_cb r0); auto. destruct (o_completed r0); auto.
+Qed.
+
+(* ------------------------------------------------------------------ ordinary messages: none lost, none duplicated, order *)
+Definition pending (s : st) : list nat := users (stashq s ++ mbox s).
+
+Definition MsgInv (s : st) : Prop :=
+  Permutation (handled s ++ pending s) (seq 0 (nextu s)) /\
+  (overtaken s = false -> handled s ++ pending s = seq 0 (nextu s)).
+
+Lemma length_zero_nil : forall A (l : list A), Nat.eqb (length l) 0 = true -> l = [].
+Proof. intros A l H. apply Nat.eqb_eq in H. destruct l; simpl in *; congruence. Qed.
+
+Lemma msg_deregister : forall s r, MsgInv s -> MsgInv (deregister s r).
+Proof.
+  intros s r [HP HE]. unfold deregister. destruct (mem r (table s)); simpl; [|split; auto].
+  destruct (is_stash (objs s) r); [destruct (blocking s - 1 =? 0)|]; unfold MsgInv, pending in *; simpl; auto.
+  rewrite !users_app in *. split.
+  - eapply Permutation_trans; [|exact HP]. apply Permutation_app_head. apply Permutation_app_comm.
+  - intros Ho. apply orb_false_iff in Ho. destruct Ho as [Ho1 Ho2]. rewrite <- (HE Ho1). f_equal.
+    apply andb_false_iff in Ho2. destruct Ho2 as [Ho2|Ho2]; apply negb_false_iff in Ho2; apply length_zero_nil in Ho2; rewrite Ho2;
+      rewrite ?app_nil_r; reflexivity.
+Qed.
+
+Lemma msg_step : forall s o, MsgInv s -> MsgInv (step s o).
+Proof.
+  intros s o HM. pose proof HM as [HP HE].
+  assert (RESP : forall s' x k, stashq s' = stashq s -> mbox s' = mbox s ++ [MResp x k] -> handled s' = handled s ->
+            nextu s' = nextu s -> overtaken s' = overtaken s -> MsgInv s').
+  { intros s' x k E1 E2 E3 E4 E5. unfold MsgInv, pending. rewrite E1, E2, E3, E4, E5.
+    rewrite app_assoc, users_app. simpl. rewrite app_nil_r. exact HM. }
+  destruct o; simpl; auto.
+  - destruct (ph s); auto. unfold MsgInv, pending in *. cbn [handled stashq mbox nextu overtaken].
+    rewrite app_assoc, users_app. cbn [users]. rewrite seq_S_end, app_assoc. split.
+    + apply Permutation_app_tail. exact HP.
+    + intros Ho. rewrite (HE Ho). reflexivity.
+  - destruct (ph s); auto. eapply RESP; simpl; eauto.
+  - destruct (get (objs s) r); auto. destruct (o_timer r0); auto; eapply RESP; simpl; eauto.
+  - destruct (get (objs s) r); auto. destruct (o_completed r0 || o_cancelreq r0); auto. eapply RESP; simpl; eauto.
+  - destruct (ph s); auto.
+  - destruct (ph s); auto.
+  - destruct (ph s); auto.
+  - destruct (turn s); auto. destruct (mbox s) as [|m rest] eqn:Mb; auto. unfold MsgInv, pending in HM, HP, HE. rewrite Mb in HM, HP, HE.
+    destruct m.
+    + destruct (0 <? blocking s); unfold MsgInv, pending in *; simpl.
+      * rewrite <- app_assoc. simpl. auto.
+      * rewrite !users_app in *. simpl in *. split.
+        -- eapply Permutation_trans; [|exact HP]. rewrite <- app_assoc. apply Permutation_app_head.
+           simpl. apply Permutation_middle.
+        -- intros Ho. apply orb_false_iff in Ho. destruct Ho as [Ho1 Ho2]. apply negb_false_iff in Ho2.
+           apply length_zero_nil in Ho2. rewrite <- (HE Ho1). rewrite Ho2. simpl. rewrite <- app_assoc. reflexivity.
+    + assert (K : forall s', stashq s' = stashq s -> mbox s' = rest -> handled s' = handled s -> nextu s' = nextu s ->
+                overtaken s' = overtaken s -> MsgInv s').
+      { intros s' E1 E2 E3 E4 E5. unfold MsgInv, pending in *. rewrite E1, E2, E3, E4, E5.
+        rewrite !users_app in *. simpl in *. auto. }
+      destruct (mem r (table s)); [|apply K; auto]. destruct (get (objs s) r); [|apply K; auto].
+      destruct (o_completed r0); apply K; auto.
+  - destruct (turn s) as [|r c k]; auto.
+    assert (D : MsgInv (deregister (with_turn s TIdle) r)) by (apply msg_deregister; exact HM).
+    destruct c; auto.
+  - destruct (turn s); auto.
+  - destruct (turn s); auto. destruct (ph s); auto. unfold register.
+    destruct ((0 <? maxif s) && (maxif s <=? inflight s)); auto.
+  - destruct (turn s); auto. destruct (get (objs s) r); auto. destruct (o_cb r0); auto. destruct (o_completed r0); auto.
+Qed.
+
+(* ------------------------------------------------------------------ everything together *)
+Definition Inv (s : st) : Prop := WF s /\ ObjInv s /\ PhaseInv s /\ CntInv s /\ LimInv s /\ MsgInv s.
+
+Lemma inv_init : forall mx, Inv (init mx).
+Proof.
+  intros mx. unfold Inv.
+  split; [split; simpl; [constructor|tauto]|].
+  split; [intros r o G; unfold get in G; simpl in G; destruct r; discriminate|].
+  split; [intros P; simpl in P; discriminate|].
+  split; [intros _; simpl; auto|].
+  split; [unfold LimInv; simpl; lia|].
+  split; simpl; auto.
+Qed.
+
+Lemma inv_step : forall s o, Inv s -> Inv (step s o).
+Proof.
+  intros s o (H1 & H2 & H3 & H4 & H5 & H6). unfold Inv.
+  auto 10 using wf_step, objinv_step, phase_step, cnt_step, lim_step, msg_step.
+Qed.
+
+Lemma inv_reach : forall mx s, reach mx s -> Inv s.
+Proof. intros mx. apply reach_ind_inv; [apply inv_init | intros; apply inv_step; auto]. Qed.
+
+(* ------------------------------------------------------------------ continuation calls change only on the turn *)
+Lemma step_calls : forall s o r ob, get (objs s) r = Some ob ->
+  exists ob', get (objs (step s o)) r = Some ob' /\
+    (o_calls ob' = o_calls ob \/ (is_turn_op o = true /\ o_calls ob' = S (o_calls ob))).
+Proof.
+  intros s o r ob G.
+  assert (KEEP : exists ob', get (objs s) r = Some ob' /\ (o_calls ob' = o_calls ob \/ (is_turn_op o = true /\ o_calls ob' = S (o_calls ob)))) by eauto.
+  assert (UPD : forall r0 f, (forall x, o_calls (f x) = o_calls x) ->
+            exists ob', get (upd (objs s) r0 f) r = Some ob' /\ (o_calls ob' = o_calls ob \/ (is_turn_op o = true /\ o_calls ob' = S (o_calls ob)))).
+  { intros r0 f Hf. rewrite get_upd. destruct (Nat.eqb r r0); eauto. rewrite G. simpl. eauto. }
+  destruct o; simpl; auto.
+  - destruct (ph s); auto.
+  - destruct (ph s); auto.
+  - destruct (get (objs s) r0); auto. destruct (o_timer r1); auto; simpl; apply UPD; auto.
+  - destruct (get (objs s) r0); auto. destruct (o_completed r1 || o_cancelreq r1); auto. simpl. apply UPD; auto.
+  - destruct (ph s); auto.
+  - unfold cancel_objs. rewrite get_mapi, G. simpl. destruct (mem r (table s)); eauto.
+    unfold cancel_one. destruct (o_completed ob); eauto.
+  - destruct (ph s); auto.
+  - destruct (ph s); auto.
+  - destruct (turn s); auto. destruct (mbox s) as [|m rest]; auto. destruct m.
+    + destruct (0 <? blocking s); auto.
+    + destruct (mem r0 (table s)); auto. destruct (get (objs s) r0) as [o0|] eqn:G0; auto.
+      destruct (o_completed o0) eqn:C0; auto. simpl. apply UPD; auto.
+  - destruct (turn s) as [|r0 c k]; auto.
+    assert (D : exists ob', get (objs (deregister (with_turn s TIdle) r0)) r = Some ob' /\ o_calls ob' = o_calls ob).
+    { destruct (deregister_shape (with_turn s TIdle) r0) as [[_ E]|(_ & E & _)]; rewrite E; simpl; eauto.
+      rewrite get_upd. destruct (Nat.eqb r r0); eauto. rewrite G. simpl. eexists; split; eauto.
+      unfold stop_timer. destruct (o_timer ob); auto. }
+    destruct D as (ob' & G' & C'). destruct c; simpl; eauto.
+    rewrite get_upd. destruct (Nat.eqb r r0); eauto. rewrite G'. simpl. eexists; split; eauto; try (right; simpl; split; auto; congruence).
+  - destruct (turn s); auto.
+  - destruct (turn s); auto. destruct (ph s); auto. unfold register.
+    destruct ((0 <? maxif s) && (maxif s <=? inflight s)); auto. simpl. rewrite get_app_old; eauto using get_lt.
+  - destruct (turn s); auto. destruct (get (objs s) r0) as [o0|] eqn:G0; auto. destruct (o_cb o0); auto.
+    destruct (o_completed o0); simpl; [|apply UPD; auto].
+    rewrite get_upd. destruct (Nat.eqb r r0); eauto. rewrite G. simpl. eexists; split; eauto.
+Qed.
+
+Lemma nstash_le : forall l t, (nstash l t <= length t)%nat.
+Proof. induction t; simpl; auto. destruct (is_stash l a); lia. Qed.
+
+(* which steps let an ordinary message into the handler *)
+Lemma handled_step : forall s o,
+  handled (step s o) = handled s \/
+  (o = ODispatch /\ exists n rest, turn s = TIdle /\ mbox s = MUser n :: rest /\ blocking s <= 0 /\
+     handled (step s o) = handled s ++ [n] /\ stashq (step s o) = stashq s).
+Proof.
+  intros s o. destruct o; simpl; auto.
+  - destruct (ph s); auto.
+  - destruct (ph s); auto.
+  - destruct (get (objs s) r); auto. destruct (o_timer r0); auto.
+  - destruct (get (objs s) r); auto. destruct (o_completed r0 || o_cancelreq r0); auto.
+  - destruct (ph s); auto.
+  - destruct (ph s); auto.
+  - destruct (ph s); auto.
+  - destruct (turn s) eqn:T; auto. destruct (mbox s) as [|m rest]; auto. destruct m.
+    + destruct (0 <? blocking s) eqn:B; auto. right. split; auto. exists n, rest. simpl. apply Z.ltb_ge in B. auto.
+    + destruct (mem r (table s)); auto. destruct (get (objs s) r); auto. destruct (o_completed r0); auto.
+  - destruct (turn s) as [|r c k]; auto. left.
+    assert (D : handled (deregister (with_turn s TIdle) r) = handled s).
+    { unfold deregister. simpl. destruct (mem r (table s)); simpl; auto.
+      destruct (is_stash (objs s) r); [destruct (blocking s - 1 =? 0)|]; auto. }
+    destruct c; auto.
+  - destruct (turn s); auto.
+  - destruct (turn s); auto. destruct (ph s); auto. unfold register.
+    destruct ((0 <? maxif s) && (maxif s <=? inflight s)); auto.
+  - destruct (turn s); auto. destruct (get (objs s) r); auto. destruct (o_cb r0); auto. destruct (o_completed r0); auto.
+Qed.
+
+(* ================================================================== headline theorems *)
+
+Theorem complete_once : forall mx s, reach mx s ->
+  (forall r ob, get (objs s) r = Some ob ->
+      (o_calls ob <= 1)%nat /\
+      (turn s = TIdle -> o_calls ob = if o_completed ob && o_cb ob && negb (o_dropped ob) then 1%nat else 0%nat) /\
+      (o_dropped ob = true -> o_outcome ob = Some KShutdown) /\
+      (o_completed ob = true <-> o_outcome ob <> None)) /\
+  (forall o r ob, get (objs s) r = Some ob ->
+      exists ob', get (objs (step s o)) r = Some ob' /\
+        (o_completed ob = true -> o_completed ob' = true /\ o_outcome ob' = o_outcome ob) /\
+        (o_calls ob' <> o_calls ob -> is_turn_op o = true /\ o_calls ob' = S (o_calls ob))) /\
+  (turn s = TIdle -> table s = [] -> forall r ob, get (objs s) r = Some ob -> o_completed ob = true).
+Proof.
+  intros mx s R. destruct (inv_reach _ _ R) as (HW & HO & _).
+  split; [|split].
+  - intros r ob G. destruct (HO _ _ G) as (H1 & H2 & H3 & H4 & H5). split; [|split; [|split]]; auto.
+    + destruct (mid_of (turn s) r); [destruct H1 as (_ & -> & _); lia|].
+      rewrite H1. destruct (o_completed ob && o_cb ob && negb (o_dropped ob)); lia.
+    + intros T. rewrite T in H1. simpl in H1. exact H1.
+    + intros D. apply H2 in D. tauto.
+  - intros o r ob G.
+    destruct (step_calls s o r ob G) as (ob' & G' & C').
+    exists ob'. split; auto. split.
+    + intros C. destruct (step_completed_mono s o r ob G C) as (ob'' & G'' & K). rewrite G' in G''. inversion G''; subst. auto.
+    + intros N. destruct C' as [C'|C']; [congruence|auto].
+  - intros T E r ob G. destruct (HO _ _ G) as (_ & _ & _ & H4 & _). rewrite E in H4. simpl in H4.
+    destruct (o_completed ob) eqn:C; auto.
+Qed.
+
+Theorem counters_exact_partial : forall mx s, reach mx s -> tainted s = false ->
+  inflight s = Z.of_nat (length (table s)) /\
+  blocking s = Z.of_nat (nstash (objs s) (table s)) /\
+  0 <= blocking s <= inflight s /\
+  (0 < mx -> inflight s <= mx) /\
+  (table s = [] -> inflight s = 0 /\ blocking s = 0) /\
+  NoDup (table s).
+Proof.
+  intros mx s R T. destruct (inv_reach _ _ R) as ((HN & _) & _ & _ & HC & HL & _).
+  destruct (HC T) as [H1 H2]. pose proof (nstash_le (objs s) (table s)).
+  assert (M : maxif s = mx).
+  { clear - R. revert s R. apply reach_ind_inv; [reflexivity|]. intros s o IH. rewrite maxif_step. auto. }
+  unfold LimInv in HL. rewrite M in HL.
+  split; [exact H1|]. split; [exact H2|]. split; [lia|]. split; [exact HL|]. split; [|exact HN].
+  intros E. rewrite E in *. simpl in *. lia.
+Qed.
+
+(* whatever happened before, a reset re-establishes exactness *)
+Theorem counters_zero_after_reset : forall mx s, reach mx s -> ph s = PCancelled ->
+  let s' := step s OReset in
+  tainted s' = false /\ table s' = [] /\ inflight s' = 0 /\ blocking s' = 0.
+Proof. intros mx s R P. simpl. rewrite P. simpl. auto. Qed.
+
+Theorem stash_mode_isolation_partial : forall mx s, reach mx s -> tainted s = false ->
+  (* an ordinary message enters the handler only by a dispatch step and only when no stash-mode request is in flight *)
+  (forall o, handled (step s o) <> handled s ->
+     o = ODispatch /\ nstash (objs s) (table s) = O /\
+     exists n rest, mbox s = MUser n :: rest /\ handled (step s o) = handled s ++ [n]) /\
+  (* while one is in flight the dispatched ordinary message is held, in arrival order, and nothing else changes hands *)
+  (forall n rest, (0 < nstash (objs s) (table s))%nat -> turn s = TIdle -> mbox s = MUser n :: rest ->
+     stashq (step s ODispatch) = stashq s ++ [MUser n] /\ mbox (step s ODispatch) = rest /\
+     handled (step s ODispatch) = handled s) /\
+  (* responses and control messages pass the gate whatever the counters say *)
+  (forall r k rest, turn s = TIdle -> mbox s = MResp r k :: rest ->
+     stashq (step s ODispatch) = stashq s /\ mbox (step s ODispatch) = rest) /\
+  (turn s = TIdle -> ctls (step s OCtl) = S (ctls s)).
+Proof.
+  intros mx s R T. destruct (inv_reach _ _ R) as (_ & _ & _ & HC & _). destruct (HC T) as [H1 H2].
+  split; [|split; [|split]].
+  - intros o N. destruct (handled_step s o) as [E|(-> & n & rest & Tu & Mb & B & E & _)]; [congruence|].
+    split; auto. split; [lia|]. eauto.
+  - intros n rest Hn Tu Mb. simpl. rewrite Tu, Mb.
+    assert (B : 0 <? blocking s = true) by (apply Z.ltb_lt; lia). rewrite B. simpl. auto.
+  - intros r k rest Tu Mb. simpl. rewrite Tu, Mb.
+    destruct (mem r (table s)); auto. destruct (get (objs s) r); auto. destruct (o_completed r0); auto.
+  - intros Tu. simpl. rewrite Tu. reflexivity.
+Qed.
+
+Theorem stash_order_partial : forall mx s, reach mx s ->
+  Permutation (handled s ++ pending s) (seq 0 (nextu s)) /\
+  (overtaken s = false -> handled s ++ pending s = seq 0 (nextu s)).
+Proof. intros mx s R. destruct (inv_reach _ _ R) as (_ & _ & _ & _ & _ & HM). exact HM. Qed.
+
+(* a release keeps the held messages in the order in which they were held *)
+Theorem release_keeps_order : forall s r,
+  stashq (deregister s r) = stashq s /\ mbox (deregister s r) = mbox s \/
+  stashq (deregister s r) = [] /\ mbox (deregister s r) = mbox s ++ stashq s.
+Proof.
+  intros. unfold deregister. destruct (mem r (table s)); simpl; auto.
+  destruct (is_stash (objs s) r); [destruct (blocking s - 1 =? 0)|]; simpl; auto.
+Qed.
+
+(* ------------------------------------------------------------------ refutations of the literal clauses (witness histories) *)
+
+(* cancelInFlightRequests (restartSubtree calls it on a running actor; doStop calls it off turn) between
+   requestState.complete and deregisterRequestState of an on-turn completion: the counters are zeroed
+   and then decremented *)
+Definition w_taint : list op :=
+  [ORequest true false; OReply 0 KReply; ODispatch; OCancelInFlight; OFinish].
+
+Theorem counters_exact_refuted :
+  exists ops, let s := run 1 ops in
+    inflight s = -1 /\ blocking s = -1 /\ table s = [] /\ turn s = TIdle /\ ph s = PRun.
+Proof. exists w_taint. vm_compute. repeat split. Qed.
+
+Theorem inflight_limit_refuted :
+  exists ops, let s := run 1 ops in
+    maxif s = 1 /\ length (table s) = 2%nat /\ (forall r, In r (table s) -> is_completed (objs s) r = false).
+Proof.
+  exists (w_taint ++ [ORequest true false; ORequest false false]). vm_compute.
+  repeat split. intros r [<-|[<-|[]]]; reflexivity.
+Qed.
+
+Theorem stash_mode_isolation_refuted :
+  exists ops, let s := run 1 ops in
+    nstash (objs s) (table s) = 1%nat /\ (forall r, In r (table s) -> is_completed (objs s) r = false) /\
+    handled (step s ODispatch) = handled s ++ [O].
+Proof.
+  exists (w_taint ++ [ORequest true false; OArrive]). vm_compute.
+  repeat split. intros r [<-|[]]; reflexivity.
+Qed.
+
+(* two stash rounds: held messages 1 and 3 sit in the stash together in the order [3;1] and are handled in that order *)
+Definition w_order_a : list op :=
+  [OArrive; ODispatch; ORequest true false; OArrive; OReply 0 KReply; OArrive; OArrive;
+   ODispatch; ODispatch; OFinish; ODispatch; ORequest true false; ODispatch; ODispatch].
+Definition w_order_b : list op :=
+  [OReply 1 KReply; ODispatch; OFinish; ODispatch; ORequest true false; ODispatch; OReply 2 KReply; ODispatch; OFinish; ODispatch].
+
+Theorem stash_order_refuted :
+  exists ops1 ops2,
+    stashq (run 0 ops1) = [MUser 3; MUser 1] /\ tainted (run 0 (ops1 ++ ops2)) = false /\
+    handled (run 0 (ops1 ++ ops2)) = [0; 2; 3; 1]%nat.
+Proof. exists w_order_a, w_order_b. vm_compute. repeat split. Qed.
+
+(* ------------------------------------------------------------------ the hypotheses are satisfiable by non-trivial states *)
+Definition ex_ops : list op :=
+  [OArrive; ODispatch; ORequest true true; ORequest false false; OThen 0; OThen 1; OArrive; OArrive; ODispatch;
+   OCancel 1; OTimerFire 0; ODispatch; ODispatch; OFinish].
+
+Example ex_reach_untainted :
+  let s := run 2 ex_ops in
+  reach 2 s /\ tainted s = false /\ overtaken s = false /\ table s = [O] /\ inflight s = 1 /\ blocking s = 1 /\
+  stashq s = [MUser 1; MUser 2] /\ handled s = [O] /\
+  option_map o_calls (get (objs s) 1) = Some 1%nat /\ option_map o_outcome (get (objs s) 1) = Some (Some KCancel).
+Proof. split; [exists ex_ops; reflexivity|]. vm_compute. repeat split. Qed.
+
+Example ex_reset_reachable :
+  let s := run 1 (w_taint ++ [OStop; OCancelInFlight]) in reach 1 s /\ ph s = PCancelled /\ tainted s = true.
+Proof. split; [eexists; reflexivity|]. vm_compute. auto. Qed.
